@@ -1517,7 +1517,7 @@ impl Engine for Index {
             }
         }
         // --- random
-        let n = if tier == Tier::Quick { 6000 } else { 80000 };
+        let n = if tier == Tier::Quick { 40000 } else { 80000 };
         for i in 0..n {
             let big = i % 10 == 0;
             emit(gen_random(rng, &codes, big).line());
